@@ -122,7 +122,7 @@ Proof.
   - (* Mkdir *) apply andb_true_iff in Hwf as [Hn Ht].
     destruct (through_file_refused s _ W (canon_normalize p Hn) Ht) as [Hl Hb].
     unfold m_mkdir. now rewrite Hl, Hb.
-  - (* MkdirAll *) apply andb_true_iff in Hwf as [Hn Ht].
+  - (* MkdirAll *) apply andb_true_iff in Hwf as [Hn Ht]. apply andb_true_iff in Hn as [Hn _].
     destruct (through_file_refused s _ W (canon_normalize p Hn) Ht) as [Hl Hb].
     unfold m_mkdirall, m_mkdir. now rewrite Hl, Hb.
   - (* OpenFile *) apply andb_true_iff in Hwf as [Hn Ht]. apply andb_true_iff in Hn as [Hn Hcr]. apply andb_true_iff in Hn as [Hn _].
